@@ -440,6 +440,15 @@ func (e *enumerator) stmt(s ast.Stmt, p Path, depth int, k kont) {
 func (p Path) Consistent() bool {
 	seen := map[string]bool{}
 	for _, e := range p {
+		// FLAG events (a boolean local assigned a constant: Arg "name=true|false") fix what a later test
+		// of that local can see; a path that tests the flag with the other outcome is infeasible
+		if e.Kind == "FLAG" {
+			if i := lastIndexByte(e.Arg, '='); i > 0 {
+				seen[e.Arg[:i]] = e.Arg[i+1:] == "true"
+				delete(seen, "!"+e.Arg[:i])
+			}
+			continue
+		}
 		if e.Kind != "COND" {
 			continue
 		}
